@@ -390,5 +390,56 @@ fn unordered(thorough: bool, _seed: u64, rep: &mut Report) {
             }
         }
     }
+    // random nested values (duplicate keys, objects under arrays under objects): every shuffle of the
+    // entries at every depth must be unordered-equal, a single-leaf mutation must be told apart --
+    // judged by a SECOND oracle, the recursively sorted normal form, which must also agree with the
+    // matching-based one
+    rep.checks.push("C15: random nested values vs deep shuffles and single-leaf mutations (normal-form oracle)".into());
+    let mut rng = crate::Rng(_seed.wrapping_mul(0x9E3779B97F4A7C15) | 1);
+    fn gen(rng: &mut crate::Rng, depth: usize) -> RefValue {
+        let keys = ["a", "b", "c", "\u{e9}"];
+        match rng.below(if depth == 0 { 4 } else { 7 }) {
+            0 => RefValue::Null, 1 => RefValue::Bool(rng.below(2) == 0), 2 => RefValue::Num(["0", "1", "1.0", "-2e3"][rng.below(4)].to_string()), 3 => RefValue::Str(["", "x", "y"][rng.below(3)].to_string()),
+            4 => RefValue::Arr((0..rng.below(4)).map(|_| gen(rng, depth - 1)).collect()),
+            _ => RefValue::Obj((0..rng.below(6)).map(|_| (keys[rng.below(keys.len())].to_string(), gen(rng, depth - 1))).collect()),
+        }
+    }
+    fn nf(v: &RefValue) -> String {
+        match v {
+            RefValue::Arr(a) => format!("[{}]", a.iter().map(nf).collect::<Vec<_>>().join(",")),
+            RefValue::Obj(es) => { let mut parts: Vec<String> = es.iter().map(|(k, x)| format!("{:?}:{}", k, nf(x))).collect(); parts.sort(); format!("{{{}}}", parts.join(",")) }
+            other => format!("{:?}", other),
+        }
+    }
+    fn deep_shuffle(v: &RefValue, rng: &mut crate::Rng) -> RefValue {
+        match v {
+            RefValue::Obj(es) => { let mut es: Vec<(String, RefValue)> = es.iter().map(|(k, x)| (k.clone(), deep_shuffle(x, rng))).collect(); for i in (1..es.len()).rev() { let j = rng.below(i + 1); es.swap(i, j); } RefValue::Obj(es) }
+            RefValue::Arr(a) => RefValue::Arr(a.iter().map(|x| deep_shuffle(x, rng)).collect()),
+            o => o.clone(),
+        }
+    }
+    fn n_leaves(v: &RefValue) -> usize { match v { RefValue::Arr(a) => a.iter().map(n_leaves).sum(), RefValue::Obj(es) => es.iter().map(|(_, x)| n_leaves(x)).sum(), _ => 1 } }
+    fn mutate(v: &RefValue, which: &mut usize) -> RefValue {
+        match v {
+            RefValue::Arr(a) => RefValue::Arr(a.iter().map(|x| mutate(x, which)).collect()),
+            RefValue::Obj(es) => RefValue::Obj(es.iter().map(|(k, x)| (k.clone(), mutate(x, which))).collect()),
+            leaf => { if *which == 0 { *which = usize::MAX; match leaf { RefValue::Null => RefValue::Bool(false), RefValue::Bool(b) => RefValue::Bool(!b), RefValue::Num(n) => RefValue::Num(if n == "7" { "8".into() } else { "7".into() }), _ => RefValue::Str("mutated".into()) } } else { if *which != usize::MAX { *which -= 1; } leaf.clone() } }
+        }
+    }
+    for it in 0..(if thorough { 20_000 } else { 3_000 }) {
+        let a = gen(&mut rng, 3);
+        let b = deep_shuffle(&a, &mut rng);
+        let n = n_leaves(&a);
+        let c = if n > 0 { let mut w = rng.below(n); mutate(&b, &mut w) } else { b.clone() };
+        for (what, x, y) in [("deep shuffle", &a, &b), ("single-leaf mutation of a shuffle", &a, &c), ("mutation vs its source shuffle", &c, &b)] {
+            let want = nf(x) == nf(y);
+            if want != ref_unordered_eq(x, y) { rep.violation("(reference self-check) the two oracles agree", "oracle", format!("{:?} ~ {:?}", x, y), format!("normal form says {}", want)); }
+            let (rx, ry) = (to_real(x), to_real(y));
+            let got = rx.as_unordered() == ry.as_unordered();
+            let got_rev = ry.as_unordered() == rx.as_unordered();
+            rep.eval(true, 0x7000_0000_0000 | it as u64);
+            if got != want || got_rev != want { rep.violation("unordered_eq == multiset equality", "random-nested", format!("{} : {:?} ~ {:?}", what, x, y), format!("real={} reversed={} reference={}", got, got_rev, want)); }
+        }
+    }
     rep.sample("{k:1,k:1,k:2} vs {k:1,k:2,k:2}".into());
 }
